@@ -172,7 +172,7 @@ def straddles (w : Nat) : Nat → List Op → Bool
     (pos < w && w < pos + n) || straddles w (pos + n) os
 
 /-- the output must be describable by the 32-bit signed fields of the BMP headers -/
-def fitsHeader (i : Img) : Bool := i.W * i.H * 4 + 2000 < 2147483648
+def fitsHeader (i : Img) : Bool := (i.W + 1) * (i.H + 1) * 4 + 2000 < 2147483648
 
 def supportedB (i : Img) (e : Enc) : Bool :=
   fitsHeader i &&
